@@ -26,8 +26,8 @@ ASSUMPTIONS = [
     "grouping after filter_by_ids is compared modulo empty suites (removed tests are replaced by empty suites)",
 ]
 
-IDS = ["t%d" % i for i in range(8)] + ["mod.Class.test_x", "é.test", "", "\u00a0nbsp.test", "wide.test\u3000"]   # the last two begin / end with non-ASCII white space
-KINDS = ["plain", "plain", "sub", "sorting", "filtering"]
+IDS = ["t%d" % i for i in range(8)] + ["mod.Class.test_x", "é.test", "", "\u00a0nbsp.test", "wide.test\u3000", "Z.test", "a.test", "t10"]   # the last two begin / end with non-ASCII white space
+KINDS = ["plain", "plain", "sub", "sorting", "filtering", "fixture"]
 
 
 def tree(depth):
@@ -85,7 +85,13 @@ def classes():
 
     class Sorting(unittest.TestSuite):
         def sort_tests(self):
-            self._tests = sorted_tests(self, True)
+            self._tests = list(sorted_tests(self, True))
+
+    def fixture_suite(tests=()):
+        # testtools' own suite with a sort_tests hook
+        import fixtures
+        from testtools.testsuite import FixtureSuite
+        return FixtureSuite(fixtures.Fixture(), tests)
 
     class Filtering(unittest.TestSuite):
         def filter_by_ids(self, test_ids):
@@ -93,7 +99,8 @@ def classes():
     class Stdlib(unittest.TestCase):
         def test_m(self):
             RUNLOG.append(self.id())
-    return {"leaf": Leaf, "plain": unittest.TestSuite, "sub": Sub_, "sorting": Sorting, "filtering": Filtering, "stdlib": Stdlib}
+    return {"leaf": Leaf, "plain": unittest.TestSuite, "sub": Sub_, "sorting": Sorting, "filtering": Filtering, "stdlib": Stdlib,
+            "fixture": fixture_suite}
 
 
 def make_leaf(node, cls):
@@ -179,10 +186,28 @@ def run_case(spec):
         if cg != cw:
             vs.append(V("filter", "grouping", "grouping after filter is %r, expected %r" % (cg, cw)))
 
+    if t["k"] in ("sub", "sorting", "fixture") and res is not live:
+        vs.append(V("filter", "not-in-place", "filter_by_ids of a %s suite returned another object (%r)" % (t["k"], type(res).__name__)))
+    # the utilities composed on one tree, as testtools.run composes them (discover sorts, --load-list filters)
+    dup = [i for i, n in collections.Counter(want_leaves).items() if n > 1]
+    if not dup:
+        reg = {}
+        live = build(t, cls, reg)
+        try:
+            r1 = sorted_tests(live)
+            r2 = filter_by_ids(r1, keep)
+            got2 = sorted(x.id() for x in iterate_tests(r2))
+            r3 = sorted_tests(r2)
+            got3 = sorted(x.id() for x in iterate_tests(r3))
+            if got2 != sorted(want) or got3 != sorted(want):
+                vs.append(V("composed", "sort-filter-sort", "sorted, then filtered by %r, then sorted again: %r / %r, expected the tests %r" % (
+                    sorted(keep), got2, got3, sorted(want))))
+        except Exception as e:
+            vs.append(V("composed", "raises-%s" % type(e).__name__, "sorted_tests then filter_by_ids then sorted_tests raised %r" % (e,)))
+
     # sorted_tests
     reg = {}
     live = build(t, cls, reg)
-    dup = [i for i, n in collections.Counter(want_leaves).items() if n > 1]
     unpack = spec["unpack_outer"]
     try:
         res = sorted_tests(live, unpack) if unpack else sorted_tests(live)
@@ -392,8 +417,8 @@ def custom_subprocess(ctx):
 def subchecks(tier):
     q = tier == "quick"
     return [
-        Sub("suite_utilities", run_case, s_case(), 2500 if q else 150000),
-        Sub("run_list_loadlist", run_cli, s_cli(), 300 if q else 12000),
+        Sub("suite_utilities", run_case, s_case(), 4000 if q else 150000),
+        Sub("run_list_loadlist", run_cli, s_cli(), 800 if q else 12000),
         Sub("subprocess_cli", run_cli, custom=custom_subprocess, note="python -m testtools.run in child interpreters (thorough only)"),
         Sub("enumerated_small_trees", run_case, enum=_enum, enum_complete=True,
             note="all trees of depth<=2/fan-out<=2 over 4 suite kinds and 3 leaf ids x 4 id subsets x unpack_outer"),
